@@ -215,8 +215,9 @@ Proof. exact odf_encrypted_only_if_validated. Qed.
 Print Assumptions C11_odf_encrypted_only_if_validated.
 
 Theorem C11_odf_probe_validate_dominates_read :
-  forall (L : limits) (c : N) (z : bool) (o : zip_oracle), dominated (odf_probe_events L c z o).
-Proof. intros. apply trace_ok_sound. exact (odf_probe_dominated L c z o). Qed.
+  forall (L : limits) (c : N) (z : bool) (o : zip_oracle) (has_manifest : bool),
+    dominated (odf_probe_events L c z o has_manifest).
+Proof. intros. apply trace_ok_sound. exact (odf_probe_dominated L c z o has_manifest). Qed.
 Print Assumptions C11_odf_probe_validate_dominates_read.
 
 (* The guard judges the sizes CLAIMED BY THE CENTRAL DIRECTORY (the model's input `es` is zipfile's infolist():
